@@ -144,6 +144,22 @@ def scaled(desc, f):
     return d
 
 
+def translated(desc, dx, dy):
+    d = dict(desc)
+    for q in ("xmin", "xmax", "xc"):
+        if q in d:
+            d[q] = d[q] + dx
+    for q in ("ymin", "ymax", "yc"):
+        if q in d:
+            d[q] = d[q] + dy
+    if "vx" in d:
+        d["vx"], d["vy"] = [v + dx for v in d["vx"]], [v + dy for v in d["vy"]]
+    if d["k"] == "range":
+        o = dx if d["ori"] == "x" else dy
+        d["lo"], d["hi"] = d["lo"] + o, d["hi"] + o
+    return d
+
+
 def centre_of(desc):
     """Geometric centre for the shapes where it is unambiguous (None for polygons)."""
     k = desc["k"]
